@@ -23,7 +23,7 @@ LEVEL = "exploration"
 RULE = ("exhaustive: every (module, name) target of the mapping table is imported, and a directory tree (nested "
         "packages, hidden and __pycache__ directories, a non-Python file, an unparsable file, CRLF) is migrated through "
         "migrate_v1_to_v2; generated: Hypothesis assembles Python modules from from-imports of mapped/unmapped modules "
-        "with mapped / unmapped / mixed names (incl. names mapped only under another v1 module), aliases, *, relative "
+        "with mapped / unmapped / mixed names (incl. names mapped only under another v1 module), aliases (also ones that contain the module's name), *, relative "
         "levels, single-line / parenthesised / multi-line-with-comments / backslash styles, plain imports, assignments "
         "whose string literals contain ; # form feeds and Unicode line separators, docstrings, def/if/try/class/with "
         "blocks with indented imports, comment and blank lines; layout joins simple statements with ';', uses \\n or "
